@@ -184,30 +184,53 @@ def method_calls(root, suffix, recv_pred=None):
 
 
 class ConnSettings:
-    """Role anchors of the connection settings struct (public, anchored by def-path).  Its fields are private: each is found as
-    *the field its public setter sets*, never by name.  A setter - a public `fn(Self, T) -> Self` of the struct - is read by
-    evaluating it: on every path the settings value it returns is taken apart into one term per field of the struct, over the
-    parameters (`effects`).  How the value is put together is not read: `mut self` + assignment + `self`, the struct-update forms
-    `LdapConnSettings { f: v, ..self }` / `Self { f, ..self }`, a local copy that is modified and returned all give the same terms
-    (a base `..Default::default()` is followed into the Default impl, derived or hand-written).
-      * the setter's own field is the one whose resulting value depends on the argument: for a value `v` the field that receives
-        it, for a bool the field that differs between `set_x(true)` and `set_x(false)` (both evaluated exactly: the whole domain);
-        for a bool request the polarity is read off the same two runs: `stored[v]` is what the field holds after `set_x(v)`;
-      * every other field is expected to be `self`'s own (identity); the ones that are not are recorded in `effects[p]['resets']`
-        and judged by C18 U6 (a setter that silently drops settings made before it in the builder chain).
+    """Role anchors of the connection settings struct (public, anchored by def-path), and what its builder interface *means*.
 
-      role            setter (public API)                 field holds
-      verify-off      set_no_tls_verify(bool)             stored[true] when verification was explicitly disabled
-      starttls        set_starttls(bool)                  stored[true] when StartTLS was requested
-      connector       set_connector(c) / set_config(c)    Some(c): the caller's own TLS connector / configuration
-      std-stream      set_std_stream(s)                   Some(s): a pre-opened stream
-      conn-timeout    set_conn_timeout(d)                 Some(d)
-    A setter of the table whose own field cannot be determined (its argument reaches no field, or several, or the result is not a
-    settings value the interpreter can take apart) raises AnchorMissing; any other setter that cannot be read is left to U6."""
+    The struct's fields are private and how a setting is represented is the maintainer's business: one bool field per setting, one
+    bit of an integer field, a variant of a fieldless enum.  Nothing here reads a representation.  A setting is what its readers
+    see:
+      role            setter (public API)                 read through
+      starttls        set_starttls(bool)                  the public getter starttls()
+      verify-off      set_no_tls_verify(bool)             what the default connector / configuration of the handshake helper does
+                                                          (certificate verification switched off or not)
+      connector       set_connector(c) / set_config(c)    the field that receives Some(c)   (an opaque value: by data flow)
+      std-stream      set_std_stream(s)                   the field that receives Some(s)
+      conn-timeout    set_conn_timeout(d)                 the field that receives Some(d)
+
+    *State space.*  The fields of a closed scalar type (bool, the integer types, fieldless enums of the workspace) form the
+    settings' finite state.  Its reachable part is enumerated exactly, by literal evaluation (no sampling): the initial states
+    are the values the constructors build (`new`, the `Default` impl - derived or written by hand -, evaluated), and every builder
+    method - a public `fn(Self, T) -> Self` of the struct - is evaluated in every reachable state with every argument (`true` and
+    `false` for a bool; a symbolic value otherwise), the state fields of `self` holding literals, until nothing new appears.  Bit
+    operations on literals are exact in the interpreter (`|=`, `&=`, `&= !C`, `^=` in the field's integer type), so a setting
+    that is one bit of a flags byte is decided the same way as one that is a bool of its own.  Each reachable node carries what
+    was *requested* along a shortest chain of builder calls that reaches it (per bool role the argument of the last call of its
+    setter, `false` when it was never called) and that chain, for the report.  A scalar field that receives a value the
+    interpreter cannot reduce to a literal is taken out of the state and treated like the opaque fields (by term identity).
+
+    *Readers* are evaluated on a state the same way (the state fields of the settings parameter hold that state's literals):
+    `read(role, state)` answers True / False, or None when the reader's paths do not agree on a literal (rules fail closed on it).
+
+    How a settings value is put together is not read either: `mut self` + assignment + `self`, the struct-update forms
+    `LdapConnSettings { f: v, ..self }` / `Self { f, ..self }`, a local copy that is modified and returned all give the same
+    field terms (a base `..Default::default()` is followed into the Default impl).
+
+    A setter of the table that cannot be evaluated (the result is not a settings value the interpreter can take apart; an Option
+    role whose argument reaches no field, or several) raises AnchorMissing; any other setter that cannot be read is left to U6."""
     ST = 'ldap3::conn::LdapConnSettings'
     BOOL = {'verify-off': ('set_no_tls_verify',), 'starttls': ('set_starttls',)}
     OPT = {'connector': ('set_connector', 'set_config'), 'std-stream': ('set_std_stream',), 'conn-timeout': ('set_conn_timeout',)}
+    GETTER = {'starttls': 'ldap3::conn::LdapConnSettings::starttls'}
+    # the handshake helper and the builders of the default connector / configuration it falls back to, with the call that switches
+    # certificate verification off in each TLS back end
+    TS = 'ldap3::conn::LdapConnAsync::create_tls_stream'
+    DANGER = {'ldap3::conn::LdapConnAsync::create_connector': 'danger_accept_invalid_certs', 'ldap3::conn::LdapConnAsync::create_config': 'set_certificate_verifier'}
     SELF = ('param', 'self')
+    SCALARS = ('bool', 'u8', 'u16', 'u32', 'u64', 'u128', 'usize', 'i8', 'i16', 'i32', 'i64', 'i128', 'isize')
+    MAX_NODES = 512
+
+    class _Demote(Exception):
+        pass
 
     def __init__(self, facts):
         self.facts = facts
@@ -215,37 +238,46 @@ class ConnSettings:
         if it is None or it.get('kind') != 'Struct':
             raise AnchorMissing('connection settings struct ' + self.ST)
         self.fields = {fl['name']: fl['ty'] for v in it['variants'] for fl in v['fields']}
-        self.field = {}      # role -> field name
-        self.stored = {}     # bool role -> {True: term, False: term}
+        self.short = hirq.short_def(self.ST)
+        self.field = {}      # Option role -> name of the field that receives Some(<argument>)
         self.setter = {}     # role -> def path of the setter that resolved it
-        self.effects = {}    # setter def path -> {'own': field, 'resets': {other field: term it ends up with}} | {'unreadable': why}
-        roles = {'%s::%s' % (self.ST, nm): role for role, names in list(self.BOOL.items()) + list(self.OPT.items()) for nm in names}
-        for p in self.setters():
-            role = roles.get(p)
+        self.effects = {}    # setter def path -> {'own': field | None, 'resets': {opaque field: term it ends up with}, 'arg': name} | {'unreadable': why}
+        self.role_of_setter = {'%s::%s' % (self.ST, nm): role for role, names in list(self.BOOL.items()) + list(self.OPT.items()) for nm in names}
+        self.setter_paths = self.setters()
+        self.is_bool = {p: (facts.items[p].get('inputs') or [None, None])[1] == 'bool' for p in self.setter_paths}
+        for p in self.setter_paths:
+            if self.role_of_setter.get(p) in self.BOOL:
+                if not self.is_bool[p]:
+                    raise AnchorMissing('%s does not take a bool' % p)
+                self.setter.setdefault(self.role_of_setter[p], p)
+        self.S = [F for F, ty in sorted(self.fields.items()) if self.closed_type(ty)]
+        while True:
             try:
-                eff = self.read_setter(p, role in self.BOOL or (role is None and (facts.items[p].get('inputs') or [None, None])[1] == 'bool'))
-            except AnchorMissing as e:
-                if role is not None:
-                    raise
-                self.effects[p] = {'unreadable': str(e)}
-                continue
-            self.effects[p] = eff
-            if role is None:
-                continue
-            fname = eff['own']
-            if role in self.field and self.field[role] != fname:
-                if role == 'connector':
-                    # both TLS back ends compiled in at once is not a supported configuration of the crate
-                    raise AnchorMissing('two caller-supplied connector fields')
-                raise AnchorMissing('%s: the field written depends on the argument' % p)
-            if role in self.OPT:
-                want = ('ctor', 'Some', (('param', eff['arg']),))
-                if any(v != want for v in eff['values']):
-                    raise AnchorMissing('%s does not store Some(<its argument>)' % p)
-            else:
-                self.stored[role] = eff['stored']
-            self.field.setdefault(role, fname)
-            self.setter.setdefault(role, p)
+                self._cache = {}
+                self.explore()
+                break
+            except self._Demote as d:
+                self.S.remove(d.args[0])
+        self.resolve_opaque_roles()
+
+    # ------------------------------------------------------------------ the struct and its builder methods
+    def closed_type(self, ty):
+        if ty in self.SCALARS:
+            return True
+        it = self.facts.items.get(ty)
+        return bool(it) and it.get('kind') == 'Enum' and all(not v.get('fields') for v in it.get('variants') or [])
+
+    @staticmethod
+    def closed(t):
+        """a completely known scalar: a literal, or a variant without payload"""
+        return t[0] == 'lit' or (t[0] == 'ctor' and not t[2])
+
+    @staticmethod
+    def copied(t):
+        """t with `clone()` / `to_owned()` of a value taken off: the copy of a value is that value"""
+        while t and t[0] == 'call' and t[1].rsplit('::', 1)[-1] in ('clone', 'to_owned') and len(t[2]) == 1:
+            t = t[2][0]
+        return t
 
     def setters(self):
         """the builder methods, by signature: public `fn(LdapConnSettings, T) -> LdapConnSettings` of the struct's own impl"""
@@ -256,80 +288,289 @@ class ConnSettings:
                 out.append(p)
         return sorted(out)
 
-    def result_fields(self, p, val=None):
-        """[{field: term}] - one entry per returning path of setter p, the argument symbolic (val None) or the literal val"""
+    def key(self, state):
+        return tuple(sorted(state.items()))
+
+    def seed(self, base, state):
+        """the heap in which the settings value `base` is in `state`: its state fields hold the state's literals"""
+        return {('field', base, F): v for F, v in state.items()}
+
+    def interp(self, B, **kw):
         import absx, sem
+        return absx.Interp(self.facts, B, combinators=True, summaries=kw.pop('summaries', []) + [sem.primitive_defaults],
+                           inline=kw.pop('inline', lambda c: c.endswith('core::default::Default>::default')), **kw)
+
+    def taken_apart(self, v, o):
+        """{field: term} of the settings value v as path o leaves it (None when v is not one the interpreter can take apart)"""
+        import absx
+        if not (v == self.SELF or v[0] == 'param' or (v[0] == 'struct' and v[1] == self.short)):
+            return None
+        got = {}
+        for F in self.fields:
+            if ('field', v, F) in o.st.heap:
+                t = o.st.heap[('field', v, F)]      # (a store to the field made after the value was put together: `let mut s = Self { .. }; s.f = x; s`)
+            else:
+                t = absx.field_term(v, F) if v[0] == 'struct' else ('field', v, F)
+                if t[0] == 'field' and t in o.st.heap:
+                    t = o.st.heap[t]              # (a store to self.F made before self became the base of the returned value; a seeded state field)
+            got[F] = self.copied(t) if self.closed(self.copied(t)) else t
+        return got
+
+    def apply_setter(self, p, state, val):
+        """[{field: term}] - one entry per returning path of builder method p called on a settings value in `state` with the literal
+        argument val (None: the argument stays symbolic).  Cached."""
+        import absx
+        k = (p, self.key(state), val)
+        if k in self._cache:
+            return self._cache[k]
         B = hirq.Body(self.facts, self.facts.body(p))
         args = [(b, d) for b, d in B.defs.items() if d['kind'] == 'param' and d['idx'] == 1 and not d['proj']]
         selfs = [(b, d) for b, d in B.defs.items() if d['kind'] == 'param' and d['idx'] == 0 and not d['proj']]
         if len(args) != 1 or len(selfs) != 1:
             raise AnchorMissing('%s: expected (self, value)' % p)
-        I = absx.Interp(self.facts, B, combinators=True, summaries=[sem.primitive_defaults], inline=lambda c: c.endswith('core::default::Default>::default'))
+        I = self.interp(B)
         env = I.param_env()
         env[selfs[0][0]] = self.SELF
         if val is not None:
             env[args[0][0]] = ('lit', val)
-        short = hirq.short_def(self.ST)
         paths = []
-        for o in I.run(env=env):
+        for o in I.run(env=env, heap=self.seed(self.SELF, state)):
             if o.kind == 'div':
                 continue
-            v = o.val
-            if o.kind not in ('val', 'ret') or not (v == self.SELF or (v[0] == 'struct' and v[1] == short)):
-                raise AnchorMissing('%s does not return a settings value that can be taken apart field by field (%s)' % (p, absx.fmt(v)[:60]))
-            got = {}
-            for F in self.fields:
-                t = absx.field_term(v, F) if v[0] == 'struct' else ('field', v, F)
-                if t[0] == 'field' and t in o.st.heap:
-                    t = o.st.heap[t]              # (a store to self.F made before self became the base of the returned value)
-                got[F] = t
+            got = self.taken_apart(o.val, o) if o.kind in ('val', 'ret') else None
+            if got is None:
+                raise AnchorMissing('%s does not return a settings value that can be taken apart field by field (%s)' % (p, absx.fmt(o.val)[:60]))
             paths.append(got)
         if not paths:
             raise AnchorMissing('%s never returns' % p)
-        return paths, args[0][1]['name']
+        self._cache[k] = (paths, args[0][1]['name'])
+        return self._cache[k]
 
-    def read_setter(self, p, is_bool):
+    def built(self, p, state=None):
+        """(settings parameters of body p, [{field: term}]): every settings value that a non-diverging path of body p builds with a
+        struct expression (a value that only serves as the `..base` of another one is judged through the outer one).  With `state`,
+        the body's settings parameters are in that state."""
+        import absx, sem
+        B = hirq.Body(self.facts, self.facts.body(p))
+        sparams = [('param', x) for x in sem.params_of_type(self.facts, B, lambda t: t == self.ST)]
+        heap = {}
+        for sp in sparams:
+            heap.update(self.seed(sp, state or {}))
+        out = []
+        for o in self.interp(B).run(root=B.root['body'] if B.root['k'] == 'Closure' else B.root, heap=heap):
+            if o.kind == 'div':
+                continue
+            where = [o.val] + [x for e in o.st.ev if e[0] in ('call', 'store') for x in (e[2] if e[0] == 'call' else (e[2],))] + list(o.st.heap.values())
+            structs = []
+            for t in where:
+                for x in absx.leaves(t, lambda x: x[0] == 'struct' and x[1] == self.short):
+                    if x not in structs:
+                        structs.append(x)
+            bases = [y[3] for y in structs if y[3] is not None]
+            out.extend(self.taken_apart(x, o) for x in structs if x not in bases)
+        return sparams, out
+
+    def constructors(self):
+        """the bodies (closures aside) that build a settings value with a struct expression and are not builder methods"""
+        out = []
+        for p in sorted(self.facts.hir):
+            if '{' in p or p in self.setter_paths:
+                continue
+            if any(nd['k'] == 'Struct' and (nd.get('ctor_of') or nd.get('def') or '') == self.ST for nd, _c in walk(self.facts.hir[p]['body'])):
+                out.append(p)
+        return out
+
+    # ------------------------------------------------------------------ the reachable states
+    def explore(self):
+        import absx
+        self.initial = []        # (constructor def path, state)
+        self.nodes = []          # {'state', 'req': {bool role: bool}, 'chain': ('set_x(true)', ..), 'from': (node index, setter, arg) | None}
+        self.trans = []          # {'node': i, 'setter': p, 'arg': True|False|None, 'fields': {field: term}, 'state': {..}, 'to': j}
+        self.unreadable = {}
+        index = {}
+        def node(state, req, chain, origin):
+            k = (self.key(state), tuple(sorted(req.items())))
+            if k not in index:
+                if len(self.nodes) >= self.MAX_NODES:
+                    raise AnchorMissing('the settings struct has more than %d reachable scalar states' % self.MAX_NODES)
+                index[k] = len(self.nodes)
+                self.nodes.append({'state': state, 'req': req, 'chain': chain, 'origin': origin})
+            return index[k]
+        def origin_of(p):
+            return 'LdapConnSettings::new()' if p == self.ST + '::new' else 'LdapConnSettings::default()' if p.endswith(' as core::default::Default>::default') else p.replace(self.ST, 'LdapConnSettings') + '(..)'
+        for p in sorted(self.constructors(), key=lambda p: (p != self.ST + '::new', p)):
+            sparams, vals = self.built(p)
+            if sparams:
+                continue         # a copy (Clone) or a conversion of another settings value: not a starting point
+            for got in vals:
+                if got is None or any(not self.closed(got[F]) for F in self.S):
+                    bad = [F for F in self.S if got is None or not self.closed(got[F])]
+                    if got is not None and bad:
+                        raise self._Demote(bad[0])
+                    raise AnchorMissing('%s builds a settings value that cannot be taken apart' % p)
+                st = {F: got[F] for F in self.S}
+                if st not in [s for _p, s in self.initial]:
+                    self.initial.append((p, st))
+                node(st, {r: False for r in self.setter if r in self.BOOL}, (), origin_of(p))
+        if not self.initial:
+            raise AnchorMissing('no constructor of the connection settings (new / Default) could be evaluated')
+        i = 0
+        while i < len(self.nodes):
+            n = self.nodes[i]
+            for p in self.setter_paths:
+                if p in self.unreadable:
+                    continue
+                role = self.role_of_setter.get(p)
+                for val in ((True, False) if self.is_bool[p] else (None,)):
+                    try:
+                        paths, arg = self.apply_setter(p, n['state'], val)
+                    except AnchorMissing as e:
+                        if role is not None:
+                            raise
+                        self.unreadable[p] = str(e)
+                        break
+                    for got in paths:
+                        for F in self.S:
+                            if not self.closed(got[F]):
+                                raise self._Demote(F)
+                        st = {F: got[F] for F in self.S}
+                        req = dict(n['req'])
+                        if role in self.BOOL and val is not None:
+                            req[role] = val
+                        call = '%s(%s)' % (p.rsplit('::', 1)[-1], '..' if val is None else 'true' if val else 'false')
+                        j = node(st, req, n['chain'] + (call,), n['origin'])
+                        self.trans.append({'node': i, 'setter': p, 'arg': val, 'argname': arg, 'fields': got, 'state': st, 'to': j, 'call': call})
+            i += 1
+
+    def resolve_opaque_roles(self):
+        """what every builder method does to the fields outside the scalar state (term identity, as the values are opaque)"""
         import absx
         ident = lambda F: ('field', self.SELF, F)
-        if is_bool:
-            runs = {}
-            for val in (True, False):
-                paths, arg = self.result_fields(p, val)
-                if any(q != paths[0] for q in paths[1:]):
-                    raise AnchorMissing('%s: the field written depends on the path' % p)
-                runs[val] = paths[0]
-            own = [F for F in self.fields if runs[True][F] != runs[False][F]]
-            if not own:
-                # the argument changes nothing: the field the setter writes all the same (the polarity test then fails on it)
-                own = [F for F in self.fields if runs[True][F] != ident(F) and runs[True][F][0] == 'lit']
-            allp = [runs[True], runs[False]]
-        else:
-            allp, arg = self.result_fields(p)
-            A = ('param', arg)
-            own = sorted({F for q in allp for F in self.fields if absx.leaves(q[F], lambda x: x == A)})
-            if any(not absx.leaves(q[F], lambda x: x == A) for q in allp for F in own):
-                raise AnchorMissing('%s: the field written depends on the path' % p)
-        if len(own) != 1:
-            raise AnchorMissing('%s does not return `self` with exactly one field set from its argument (%s)' % (p, sorted(own)))
-        own = own[0]
-        resets = {}
-        for q in allp:
-            for F in self.fields:
-                if F != own and q[F] != ident(F):
-                    resets.setdefault(F, q[F])
-        eff = {'own': own, 'resets': resets, 'arg': arg, 'values': [q[own] for q in allp]}
-        if is_bool:
-            eff['stored'] = {v: runs[v][own] for v in (True, False)}
-        return eff
+        opaque = [F for F in self.fields if F not in self.S]
+        for p in self.setter_paths:
+            if p in self.unreadable:
+                self.effects[p] = {'unreadable': self.unreadable[p]}
+                continue
+            ts = [t for t in self.trans if t['setter'] == p]
+            role = self.role_of_setter.get(p)
+            A = ('param', ts[0]['argname'])
+            own = sorted({F for t in ts for F in opaque if absx.leaves(t['fields'][F], lambda x: x == A)}) if not self.is_bool[p] else []
+            if role in self.OPT:
+                if len(own) != 1 or any(not absx.leaves(t['fields'][own[0]], lambda x: x == A) for t in ts):
+                    raise AnchorMissing('%s does not return `self` with exactly one field set from its argument (%s)' % (p, own))
+                if any(t['fields'][own[0]] != ('ctor', 'Some', (A,)) for t in ts):
+                    raise AnchorMissing('%s does not store Some(<its argument>)' % p)
+                if role in self.field and self.field[role] != own[0]:
+                    # both TLS back ends compiled in at once is not a supported configuration of the crate
+                    raise AnchorMissing('two caller-supplied connector fields' if role == 'connector' else '%s: the field written depends on the argument' % p)
+                self.field.setdefault(role, own[0])
+                self.setter.setdefault(role, p)
+            resets = {}
+            for t in ts:
+                for F in opaque:
+                    if F not in own and t['fields'][F] != ident(F):
+                        resets.setdefault(F, t['fields'][F])
+            self.effects[p] = {'own': own[0] if len(own) == 1 else None, 'owns': own, 'resets': resets, 'arg': ts[0]['argname']}
 
     def role_of_field(self, F):
         return next((r for r, x in self.field.items() if x == F), None)
 
-    def polarity_ok(self, role):
-        """the setter records the request: what it stores for `true` and for `false` are the two distinct boolean constants"""
-        s = self.stored.get(role)
-        return s is not None and {s[True], s[False]} == {('lit', True), ('lit', False)}
+    def where(self, n):
+        """the shortest chain of builder calls that reaches node n, as the caller would write it"""
+        n = n if isinstance(n, dict) else self.nodes[n]
+        return n['origin'] + ''.join('.' + c for c in n['chain'])
 
-    def requested(self, role, truth):
-        """Given the truth value a path found for the role's field: was the request made (set_x(true))?"""
-        return ('lit', truth) == self.stored[role][True]
+    # ------------------------------------------------------------------ readers
+    def read(self, role, state):
+        """(what the setting `role` reads in `state`: True / False / None, why None)"""
+        k = ('read', role, self.key(state))
+        if k not in self._cache:
+            self._cache[k] = self.read_starttls(state) if role == 'starttls' else self.read_verify_off(state) if role == 'verify-off' else (None, 'no reader')
+        return self._cache[k]
+
+    def reads(self, state):
+        return {r: self.read(r, state)[0] for r in self.setter if r in self.BOOL}
+
+    def read_starttls(self, state):
+        """the public getter, evaluated on a settings value in `state`: the literal every returning path answers"""
+        import absx
+        g = self.GETTER['starttls']
+        if g not in self.facts.hir:
+            return None, 'no getter %s' % g
+        B = hirq.Body(self.facts, self.facts.body(g))
+        selfs = [b for b, d in B.defs.items() if d['kind'] == 'param' and d['idx'] == 0 and not d['proj']]
+        I = self.interp(B)
+        env = I.param_env()
+        for b in selfs:
+            env[b] = self.SELF
+        vals = {o.val for o in I.run(env=env, heap=self.seed(self.SELF, state)) if o.kind in ('val', 'ret')}
+        if len(vals) == 1 and next(iter(vals)) in (('lit', True), ('lit', False)):
+            return next(iter(vals))[1], ''
+        return None, 'starttls() answers %s' % ' / '.join(sorted(absx.fmt(v)[:40] for v in vals))
+
+    def read_verify_off(self, state):
+        """What a connection opened with settings in `state` does about certificate verification when the caller supplied no
+        connector of his own: the handshake helper is evaluated with its settings parameter in that state, the builder of the
+        default connector / configuration followed into (whatever it is handed: the settings, or a flag read from them); the
+        reading is True when every path that builds the default connector switches verification off (native-tls:
+        danger_accept_invalid_certs(true); rustls: a certificate verifier of the crate's own installed), False when none does."""
+        import absx, sem
+        f = self.facts
+        if self.TS not in f.hir:
+            return None, 'no handshake helper %s' % self.TS
+        T = hirq.Body(f, f.body(self.TS))
+        sparams = sem.params_of_type(f, T, lambda t: t == self.ST)
+        if len(sparams) != 1:
+            return None, 'the handshake helper has no single settings parameter'
+        def follow(I, cal, args, node, st):
+            if cal in self.DANGER:
+                return I.inline_call(cal, args, node, st.event(('default-connector', cal, tuple(args), node)))
+            return None
+        I = self.interp(T, summaries=[follow])
+        seen = set()
+        for o in I.run(root=T.root['body'] if T.root['k'] == 'Closure' else T.root, heap=self.seed(('param', sparams[0]), state)):
+            if o.kind == 'div':
+                continue
+            b = [e for e in o.st.ev if e[0] == 'default-connector']
+            if not b:
+                continue
+            danger = self.DANGER[b[0][1]]
+            # the switch inside a closure that is handed to a function the interpreter has no model of (OnceLock::get_or_init,
+            # a thread, ...): whether it runs - now, once per process, never - is not decided by this connection's settings
+            for e in o.st.ev[o.st.ev.index(b[0]):]:
+                if e[0] != 'call':
+                    continue
+                for c in [y for x in e[2] for y in absx.leaves(x, lambda y: y[0] == 'closure')]:
+                    for body in [self.facts.hir.get(b[0][1]), self.facts.hir.get(self.TS)]:
+                        for nd, _c in walk(body['body']) if body else ():
+                            if nd['k'] == 'Closure' and nd.get('def') == c[1] and any(m['k'] == 'MethodCall' and (callee_of(m) or '').endswith(danger) for m, _c2 in walk(nd['body'])):
+                                return None, 'the call that switches verification off sits in a closure handed to %s: whether it runs is not decided by this connection\'s settings' % e[1].rsplit('::', 1)[-1]
+            d = [e for e in o.st.ev if e[0] == 'call' and e[1].endswith(danger)]
+            if d and danger == 'danger_accept_invalid_certs' and d[0][2][1] != ('lit', True):
+                if d[0][2][1] == ('lit', False):
+                    d = []
+                else:
+                    return None, 'danger_accept_invalid_certs(%s)' % absx.fmt(d[0][2][1])[:40]
+            seen.add(bool(d))
+        if len(seen) == 1:
+            return next(iter(seen)), ''
+        return None, ('no path of the handshake helper builds the default connector' if not seen else 'the default connector\'s verification does not depend on the settings alone')
+
+    # ------------------------------------------------------------------ the builder interface as an algebra (interpreter summary)
+    def algebra(self, I, cal, args, node, st):
+        """Interpreter summary for bodies that *use* settings (the constructors): a getter applied to a value that went through
+        builder calls, `set_y(.. set_x(s, v) ..).x()`, is v when the last call of x's setter on the way is in sight, and `s.x()`
+        when no call of it is - whatever the representation.  This is what C17 W7 (set_x(v) makes x read v) and C18 U6 (no builder
+        method changes what another setting reads) establish for every reachable state; where they fail they are reported there."""
+        import absx
+        role = next((r for r, g in self.GETTER.items() if g == cal), None)
+        if role is None or len(args) != 1 or role not in self.setter:
+            return None
+        t, through = args[0], False
+        while t[0] == 'call' and t[1] in self.setter_paths and len(t[2]) == 2:
+            if t[1] == self.setter[role]:
+                return [absx.Out('val', t[2][1], st)]
+            t, through = t[2][0], True
+        if not through:
+            return None
+        return [absx.Out('val', ('call', cal, (t,), node.get('id')), st.event(('call', cal, (t,), node)))]
